@@ -139,20 +139,12 @@ func (m *Manager) Allocate(ctx context.Context, cni *daemon.CNI, req *AllocReque
 	defer cancel()
 
 	go func() {
-		// start a goroutine to collect the result
-		for {
-			select {
-			case <-ctx.Done():
-				close(done)
-				return
-			case resp, ok := <-resultCh:
-				if !ok {
-					close(done)
-					return
-				}
-				result = append(result, resp...)
-			}
+		// start a goroutine to collect the result, it must not stop on ctx.Done: a result which is already
+		// taken from the eni has to reach the caller, otherwise nobody can roll it back
+		for resp := range resultCh {
+			result = append(result, resp...)
 		}
+		close(done)
 	}()
 
 	wg := sync.WaitGroup{}
@@ -189,7 +181,12 @@ func (m *Manager) Allocate(ctx context.Context, cni *daemon.CNI, req *AllocReque
 					break
 				}
 			}
-			return nil, fmt.Errorf("no eni can handle the allocation")
+			// hand back what the previous requests got, the caller will roll back
+			cancel()
+			wg.Wait()
+			close(resultCh)
+			<-done
+			return result, fmt.Errorf("no eni can handle the allocation")
 		}
 
 		wg.Add(1)
@@ -212,10 +209,7 @@ func (m *Manager) Allocate(ctx context.Context, cni *daemon.CNI, req *AllocReque
 					break
 				}
 
-				select {
-				case <-ctx.Done():
-				case resultCh <- resp.NetworkConfigs:
-				}
+				resultCh <- resp.NetworkConfigs
 			}
 		}()
 	}
